@@ -370,3 +370,63 @@ package route
 //@   loop 1 invariant forall j int :: 0 <= j && j <= rangeindex ==> hasKey(m, optKey(rangeover[j]))
 //@   loop 1 invariant forall k string :: hasKey(m, k) ==> exists j int :: 0 <= j && j <= rangeindex && optKey(rangeover[j]) == k && m[k] == optVal(rangeover[j])
 //@   loop 1 iteration ensures hasKey(m, optKey(rangeover[rangeindex])) && m[optKey(rangeover[rangeindex])] == optVal(rangeover[rangeindex])
+//@
+//@ // ---- C04: traffic is split by the configured weights ------------------------------------------------------------
+//@ // float64 is treated as the real numbers in everything below (rounding, overflow and NaN are outside this model;
+//@ // the bounded stand-in weights_extreme runs the real code on extreme values)
+//@ spec fun wfTargets(ts []*Target) bool = (forall i int :: 0 <= i && i < len(ts) ==> ts[i] != nil) && (forall i int, j int :: 0 <= i && i < j && j < len(ts) ==> ts[i] != ts[j])
+//@ // sum and number of the fixed (positive) weights among the first n targets
+//@ spec fun sumF(ts []*Target, n int) float64 decreases n = n <= 0 ? 0.0 : sumF(ts, n-1) + (ts[n-1].FixedWeight > 0.0 ? ts[n-1].FixedWeight : 0.0)
+//@ spec fun nF(ts []*Target, n int) int decreases n = n <= 0 ? 0 : nF(ts, n-1) + (ts[n-1].FixedWeight > 0.0 ? 1 : 0)
+//@ // fixed weights are divided by normOf: their sum if it exceeds 100%, or if every target is fixed and they sum to less
+//@ spec fun normOf(ts []*Target) float64 opaque = (sumF(ts, len(ts)) > 1.0 || (nF(ts, len(ts)) == len(ts) && sumF(ts, len(ts)) < 1.0)) ? sumF(ts, len(ts)) : 1.0
+//@ // the targets without a fixed weight share the remainder equally
+//@ spec fun dynOf(ts []*Target) float64 opaque = (1.0 - sumF(ts, len(ts))) / float64(len(ts) - nF(ts, len(ts))) < 0.0 ? 0.0 : (1.0 - sumF(ts, len(ts))) / float64(len(ts) - nF(ts, len(ts)))
+//@ // the effective weight the documentation prescribes for target j
+//@ spec fun wexp(ts []*Target, j int) float64 opaque = nF(ts, len(ts)) == 0 ? 1.0 / float64(len(ts)) : (ts[j].FixedWeight > 0.0 ? ts[j].FixedWeight / normOf(ts) : dynOf(ts))
+//@
+//@ // p is one of the targets and has a positive effective weight
+//@ spec fun livePick(ts []*Target, p *Target) bool opaque = exists i int :: 0 <= i && i < len(ts) && p == ts[i] && ts[i].Weight > 0.0
+//@
+//@ func (*Route).weighTargets
+//@   props C04 C02
+//@   requires r != nil && wfTargets(r.Targets)
+//@   assigns Target.Weight, r.wTargets
+//@   ensures nopanic
+//@   ensures forall j int :: 0 <= j && j < len(r.Targets) ==> r.Targets[j].Weight == wexp(r.Targets, j)
+//@   ensures forall j int :: 0 <= j && j < len(r.Targets) ==> 0.0 <= r.Targets[j].Weight && r.Targets[j].Weight <= 1.0
+//@   // a route with targets always has a ring to pick from
+//@   ensures len(r.Targets) > 0 ==> len(r.wTargets) > 0
+//@   // a target with zero weight is never on the ring; whatever is on the ring is one of the route's targets
+//@   ensures forall q int :: 0 <= q && q < len(r.wTargets) ==> r.wTargets[q] == nil || livePick(r.Targets, r.wTargets[q])
+//@   loop 1 invariant forall j int :: 0 <= j && j <= rangeindex && r.Targets[j].FixedWeight > 0.0 ==> r.Targets[j].FixedWeight <= sumFixed
+//@   loop 1 invariant forall j int :: 0 <= j && j <= rangeindex && !(r.Targets[j].FixedWeight > 0.0) ==> nFixed <= rangeindex
+//@   loop 1 invariant nFixed > 0 ==> exists j int :: 0 <= j && j <= rangeindex && r.Targets[j].FixedWeight > 0.0
+//@   loop 1 invariant 0 <= nFixed && nFixed <= rangeindex+1 && nFixed == nF(r.Targets, rangeindex+1) && sumFixed == sumF(r.Targets, rangeindex+1) && sumFixed >= 0.0
+//@   loop 2 invariant forall j int :: 0 <= j && j <= rangeindex ==> r.Targets[j].Weight == w
+//@   loop 2 invariant forall j int :: 0 <= j && j <= rangeindex ==> 0.0 <= r.Targets[j].Weight && r.Targets[j].Weight <= 1.0
+//@   loop 3 invariant norm == normOf(r.Targets) && dynamic == dynOf(r.Targets) && nF(r.Targets, len(r.Targets)) != 0
+//@   loop 3 invariant forall j int :: 0 <= j && j <= rangeindex ==> r.Targets[j].Weight == wexp(r.Targets, j)
+//@   loop 3 invariant sumFixed > 0.0 && nFixed > 0 && nFixed <= len(r.Targets)
+//@   loop 3 invariant norm > 0.0
+//@   loop 3 invariant 0.0 <= dynamic
+//@   loop 3 invariant nFixed < len(r.Targets) ==> dynamic <= 1.0
+//@   loop 3 invariant forall j int :: 0 <= j && j < len(r.Targets) && r.Targets[j].FixedWeight > 0.0 ==> r.Targets[j].FixedWeight <= norm
+//@   loop 3 invariant forall j int :: 0 <= j && j < len(r.Targets) && !(r.Targets[j].FixedWeight > 0.0) ==> nFixed < len(r.Targets)
+//@   loop 3 invariant forall j int :: 0 <= j && j <= rangeindex ==> 0.0 <= r.Targets[j].Weight && r.Targets[j].Weight <= 1.0
+//@   loop 4 invariant len(slots) == len(r.Targets) && fresh(slots)
+//@   loop 4 invariant forall j int :: 0 <= j && j < len(r.Targets) ==> 0.0 <= r.Targets[j].Weight && r.Targets[j].Weight <= 1.0
+//@   loop 4 invariant forall j int :: 0 <= j && j <= rangeindex ==> slots[j].i == j && 0 <= slots[j].n && slots[j].n <= 10000
+//@   loop 4 invariant 0 <= usedSlots
+//@   loop 4 invariant usedSlots <= 10000 * (rangeindex + 1)
+//@   loop 4 invariant forall j int :: 0 <= j && j <= rangeindex ==> slots[j].n <= usedSlots
+//@   loop 4 invariant forall j int :: 0 <= j && j <= rangeindex && slots[j].n > 0 ==> r.Targets[j].Weight > 0.0
+//@   loop 4 invariant forall j int :: 0 <= j && j <= rangeindex && r.Targets[j].Weight > 0.0 ==> slots[j].n >= 1
+//@   // filling the ring: every slot is empty or holds one of the route's targets with a positive weight
+//@   loop 5 invariant len(targets) == usedSlots && fresh(targets) && len(slots) == len(r.Targets)
+//@   loop 5 invariant forall j int :: 0 <= j && j < len(slots) ==> 0 <= slots[j].i && slots[j].i < len(r.Targets) && slots[j].n <= usedSlots && (slots[j].n > 0 ==> r.Targets[slots[j].i].Weight > 0.0)
+//@   loop 5 invariant forall q int :: 0 <= q && q < usedSlots ==> targets[q] == nil || livePick(r.Targets, targets[q])
+//@   loop 6 invariant len(targets) == usedSlots && fresh(targets) && 0 <= next && next < usedSlots && s.n > 0 && s.n <= usedSlots && 0 <= s.i && s.i < len(r.Targets) && r.Targets[s.i].Weight > 0.0
+//@   loop 6 invariant forall q int :: 0 <= q && q < usedSlots ==> targets[q] == nil || livePick(r.Targets, targets[q])
+//@   loop 7 invariant len(targets) == usedSlots && fresh(targets) && 0 <= next && next < usedSlots && s.n > 0 && s.n <= usedSlots && 0 <= s.i && s.i < len(r.Targets) && r.Targets[s.i].Weight > 0.0
+//@   loop 7 invariant forall q int :: 0 <= q && q < usedSlots ==> targets[q] == nil || livePick(r.Targets, targets[q])
